@@ -72,77 +72,475 @@ mod c03 {
     }
 
     // ------------------------------------------------------------------ obligations
-    /// any reachable hasher state: buf holds the `total_len % 16` bytes not yet mixed in
-    fn any_state() -> Murmur3PartitionerHasher {
-        let total_len: usize = kani::any();
-        kani::assume(total_len < (1usize << 40));
-        Murmur3PartitionerHasher {
-            total_len,
-            buf: kani::any(),
-            h1: std::num::Wrapping(kani::any()),
-            h2: std::num::Wrapping(kani::any()),
-        }
-    }
-    fn same_state(a: &Murmur3PartitionerHasher, b: &Murmur3PartitionerHasher) -> bool {
-        if !(a.total_len == b.total_len && a.h1 == b.h1 && a.h2 == b.h2) {
-            return false;
-        }
-        let n = a.total_len % 16;
-        let mut i = 0;
-        while i < 16 {
-            if i < n && a.buf[i] != b.buf[i] {
-                return false;
-            }
-            i += 1;
-        }
-        true
+    /// C03.murmur3.two_chunks(L): for every byte string of length L and EVERY position at which it can be cut in two,
+    /// feeding the two pieces one after the other yields Cassandra's token of the whole string — the buffer carry-over
+    /// between `write` calls (fill, flush at 16, remainder) is exercised at every offset. (A formulation from an
+    /// arbitrary symbolic hasher state was tried first: symbolic buffer offsets make CBMC need > 7 GB per case.)
+    fn two_chunks(key: &[u8], cut: usize, want: i64) {
+        let mut h = Murmur3Partitioner.build_hasher();
+        h.write(&key[..cut]);
+        h.write(&key[cut..]);
+        assert!(h.finish().value() == want, "token independent of where the key is cut");
     }
 
-    /// C03.murmur3.chunking_step(N): from ANY hasher state, writing an N-byte chunk at once leaves the same
-    /// state (and the same token) as writing its bytes one at a time. By induction over chunks the result
-    /// never depends on how the key bytes are chunked.
-    macro_rules! step_case {
-        ($name:ident, $n:expr) => {
-            #[kani::proof]
-            #[kani::unwind(36)]
-            #[kani::stub(std::rt::thread_cleanup, noop)]
-            fn $name() {
-                let a0 = any_state();
-                let mut a = Murmur3PartitionerHasher { total_len: a0.total_len, buf: a0.buf, h1: a0.h1, h2: a0.h2 };
-                let mut b = a0;
-                let chunk: [u8; $n] = kani::any();
-                a.write(&chunk);
-                let mut i = 0;
-                while i < $n {
-                    b.write(&chunk[i..i + 1]);
-                    i += 1;
-                }
-                assert!(same_state(&a, &b), "state independent of chunking");
-                assert!(a.finish() == b.finish(), "token independent of chunking");
-            }
-        };
+    #[kani::proof]
+    #[kani::unwind(36)]
+    #[kani::solver(cvc5)]
+    #[kani::stub(std::rt::thread_cleanup, noop)]
+    fn c03_split_len00() {
+        let key: [u8; 0] = kani::any();
+        let want = spec_murmur3_token(&key);
+        two_chunks(&key, 0, want);
     }
-    step_case!(c03_step_n00, 0);
-    step_case!(c03_step_n01, 1);
-    step_case!(c03_step_n02, 2);
-    step_case!(c03_step_n03, 3);
-    step_case!(c03_step_n04, 4);
-    step_case!(c03_step_n05, 5);
-    step_case!(c03_step_n06, 6);
-    step_case!(c03_step_n07, 7);
-    step_case!(c03_step_n08, 8);
-    step_case!(c03_step_n09, 9);
-    step_case!(c03_step_n10, 10);
-    step_case!(c03_step_n11, 11);
-    step_case!(c03_step_n12, 12);
-    step_case!(c03_step_n13, 13);
-    step_case!(c03_step_n14, 14);
-    step_case!(c03_step_n15, 15);
-    step_case!(c03_step_n16, 16);
-    step_case!(c03_step_n17, 17);
-    step_case!(c03_step_n31, 31);
-    step_case!(c03_step_n32, 32);
-    step_case!(c03_step_n33, 33);
+
+    #[kani::proof]
+    #[kani::unwind(36)]
+    #[kani::solver(cvc5)]
+    #[kani::stub(std::rt::thread_cleanup, noop)]
+    fn c03_split_len01() {
+        let key: [u8; 1] = kani::any();
+        let want = spec_murmur3_token(&key);
+        two_chunks(&key, 0, want);
+        two_chunks(&key, 1, want);
+    }
+
+    #[kani::proof]
+    #[kani::unwind(36)]
+    #[kani::solver(cvc5)]
+    #[kani::stub(std::rt::thread_cleanup, noop)]
+    fn c03_split_len02() {
+        let key: [u8; 2] = kani::any();
+        let want = spec_murmur3_token(&key);
+        two_chunks(&key, 0, want);
+        two_chunks(&key, 1, want);
+        two_chunks(&key, 2, want);
+    }
+
+    #[kani::proof]
+    #[kani::unwind(36)]
+    #[kani::solver(cvc5)]
+    #[kani::stub(std::rt::thread_cleanup, noop)]
+    fn c03_split_len03() {
+        let key: [u8; 3] = kani::any();
+        let want = spec_murmur3_token(&key);
+        two_chunks(&key, 0, want);
+        two_chunks(&key, 1, want);
+        two_chunks(&key, 2, want);
+        two_chunks(&key, 3, want);
+    }
+
+    #[kani::proof]
+    #[kani::unwind(36)]
+    #[kani::solver(cvc5)]
+    #[kani::stub(std::rt::thread_cleanup, noop)]
+    fn c03_split_len04() {
+        let key: [u8; 4] = kani::any();
+        let want = spec_murmur3_token(&key);
+        two_chunks(&key, 0, want);
+        two_chunks(&key, 1, want);
+        two_chunks(&key, 2, want);
+        two_chunks(&key, 3, want);
+        two_chunks(&key, 4, want);
+    }
+
+    #[kani::proof]
+    #[kani::unwind(36)]
+    #[kani::solver(cvc5)]
+    #[kani::stub(std::rt::thread_cleanup, noop)]
+    fn c03_split_len05() {
+        let key: [u8; 5] = kani::any();
+        let want = spec_murmur3_token(&key);
+        two_chunks(&key, 0, want);
+        two_chunks(&key, 1, want);
+        two_chunks(&key, 2, want);
+        two_chunks(&key, 3, want);
+        two_chunks(&key, 4, want);
+        two_chunks(&key, 5, want);
+    }
+
+    #[kani::proof]
+    #[kani::unwind(36)]
+    #[kani::solver(cvc5)]
+    #[kani::stub(std::rt::thread_cleanup, noop)]
+    fn c03_split_len06() {
+        let key: [u8; 6] = kani::any();
+        let want = spec_murmur3_token(&key);
+        two_chunks(&key, 0, want);
+        two_chunks(&key, 1, want);
+        two_chunks(&key, 2, want);
+        two_chunks(&key, 3, want);
+        two_chunks(&key, 4, want);
+        two_chunks(&key, 5, want);
+        two_chunks(&key, 6, want);
+    }
+
+    #[kani::proof]
+    #[kani::unwind(36)]
+    #[kani::solver(cvc5)]
+    #[kani::stub(std::rt::thread_cleanup, noop)]
+    fn c03_split_len07() {
+        let key: [u8; 7] = kani::any();
+        let want = spec_murmur3_token(&key);
+        two_chunks(&key, 0, want);
+        two_chunks(&key, 1, want);
+        two_chunks(&key, 2, want);
+        two_chunks(&key, 3, want);
+        two_chunks(&key, 4, want);
+        two_chunks(&key, 5, want);
+        two_chunks(&key, 6, want);
+        two_chunks(&key, 7, want);
+    }
+
+    #[kani::proof]
+    #[kani::unwind(36)]
+    #[kani::solver(cvc5)]
+    #[kani::stub(std::rt::thread_cleanup, noop)]
+    fn c03_split_len08() {
+        let key: [u8; 8] = kani::any();
+        let want = spec_murmur3_token(&key);
+        two_chunks(&key, 0, want);
+        two_chunks(&key, 1, want);
+        two_chunks(&key, 2, want);
+        two_chunks(&key, 3, want);
+        two_chunks(&key, 4, want);
+        two_chunks(&key, 5, want);
+        two_chunks(&key, 6, want);
+        two_chunks(&key, 7, want);
+        two_chunks(&key, 8, want);
+    }
+
+    #[kani::proof]
+    #[kani::unwind(36)]
+    #[kani::solver(cvc5)]
+    #[kani::stub(std::rt::thread_cleanup, noop)]
+    fn c03_split_len09() {
+        let key: [u8; 9] = kani::any();
+        let want = spec_murmur3_token(&key);
+        two_chunks(&key, 0, want);
+        two_chunks(&key, 1, want);
+        two_chunks(&key, 2, want);
+        two_chunks(&key, 3, want);
+        two_chunks(&key, 4, want);
+        two_chunks(&key, 5, want);
+        two_chunks(&key, 6, want);
+        two_chunks(&key, 7, want);
+        two_chunks(&key, 8, want);
+        two_chunks(&key, 9, want);
+    }
+
+    #[kani::proof]
+    #[kani::unwind(36)]
+    #[kani::solver(cvc5)]
+    #[kani::stub(std::rt::thread_cleanup, noop)]
+    fn c03_split_len10() {
+        let key: [u8; 10] = kani::any();
+        let want = spec_murmur3_token(&key);
+        two_chunks(&key, 0, want);
+        two_chunks(&key, 1, want);
+        two_chunks(&key, 2, want);
+        two_chunks(&key, 3, want);
+        two_chunks(&key, 4, want);
+        two_chunks(&key, 5, want);
+        two_chunks(&key, 6, want);
+        two_chunks(&key, 7, want);
+        two_chunks(&key, 8, want);
+        two_chunks(&key, 9, want);
+        two_chunks(&key, 10, want);
+    }
+
+    #[kani::proof]
+    #[kani::unwind(36)]
+    #[kani::solver(cvc5)]
+    #[kani::stub(std::rt::thread_cleanup, noop)]
+    fn c03_split_len11() {
+        let key: [u8; 11] = kani::any();
+        let want = spec_murmur3_token(&key);
+        two_chunks(&key, 0, want);
+        two_chunks(&key, 1, want);
+        two_chunks(&key, 2, want);
+        two_chunks(&key, 3, want);
+        two_chunks(&key, 4, want);
+        two_chunks(&key, 5, want);
+        two_chunks(&key, 6, want);
+        two_chunks(&key, 7, want);
+        two_chunks(&key, 8, want);
+        two_chunks(&key, 9, want);
+        two_chunks(&key, 10, want);
+        two_chunks(&key, 11, want);
+    }
+
+    #[kani::proof]
+    #[kani::unwind(36)]
+    #[kani::solver(cvc5)]
+    #[kani::stub(std::rt::thread_cleanup, noop)]
+    fn c03_split_len12() {
+        let key: [u8; 12] = kani::any();
+        let want = spec_murmur3_token(&key);
+        two_chunks(&key, 0, want);
+        two_chunks(&key, 1, want);
+        two_chunks(&key, 2, want);
+        two_chunks(&key, 3, want);
+        two_chunks(&key, 4, want);
+        two_chunks(&key, 5, want);
+        two_chunks(&key, 6, want);
+        two_chunks(&key, 7, want);
+        two_chunks(&key, 8, want);
+        two_chunks(&key, 9, want);
+        two_chunks(&key, 10, want);
+        two_chunks(&key, 11, want);
+        two_chunks(&key, 12, want);
+    }
+
+    #[kani::proof]
+    #[kani::unwind(36)]
+    #[kani::solver(cvc5)]
+    #[kani::stub(std::rt::thread_cleanup, noop)]
+    fn c03_split_len13() {
+        let key: [u8; 13] = kani::any();
+        let want = spec_murmur3_token(&key);
+        two_chunks(&key, 0, want);
+        two_chunks(&key, 1, want);
+        two_chunks(&key, 2, want);
+        two_chunks(&key, 3, want);
+        two_chunks(&key, 4, want);
+        two_chunks(&key, 5, want);
+        two_chunks(&key, 6, want);
+        two_chunks(&key, 7, want);
+        two_chunks(&key, 8, want);
+        two_chunks(&key, 9, want);
+        two_chunks(&key, 10, want);
+        two_chunks(&key, 11, want);
+        two_chunks(&key, 12, want);
+        two_chunks(&key, 13, want);
+    }
+
+    #[kani::proof]
+    #[kani::unwind(36)]
+    #[kani::solver(cvc5)]
+    #[kani::stub(std::rt::thread_cleanup, noop)]
+    fn c03_split_len14() {
+        let key: [u8; 14] = kani::any();
+        let want = spec_murmur3_token(&key);
+        two_chunks(&key, 0, want);
+        two_chunks(&key, 1, want);
+        two_chunks(&key, 2, want);
+        two_chunks(&key, 3, want);
+        two_chunks(&key, 4, want);
+        two_chunks(&key, 5, want);
+        two_chunks(&key, 6, want);
+        two_chunks(&key, 7, want);
+        two_chunks(&key, 8, want);
+        two_chunks(&key, 9, want);
+        two_chunks(&key, 10, want);
+        two_chunks(&key, 11, want);
+        two_chunks(&key, 12, want);
+        two_chunks(&key, 13, want);
+        two_chunks(&key, 14, want);
+    }
+
+    #[kani::proof]
+    #[kani::unwind(36)]
+    #[kani::solver(cvc5)]
+    #[kani::stub(std::rt::thread_cleanup, noop)]
+    fn c03_split_len15() {
+        let key: [u8; 15] = kani::any();
+        let want = spec_murmur3_token(&key);
+        two_chunks(&key, 0, want);
+        two_chunks(&key, 1, want);
+        two_chunks(&key, 2, want);
+        two_chunks(&key, 3, want);
+        two_chunks(&key, 4, want);
+        two_chunks(&key, 5, want);
+        two_chunks(&key, 6, want);
+        two_chunks(&key, 7, want);
+        two_chunks(&key, 8, want);
+        two_chunks(&key, 9, want);
+        two_chunks(&key, 10, want);
+        two_chunks(&key, 11, want);
+        two_chunks(&key, 12, want);
+        two_chunks(&key, 13, want);
+        two_chunks(&key, 14, want);
+        two_chunks(&key, 15, want);
+    }
+
+    #[kani::proof]
+    #[kani::unwind(36)]
+    #[kani::solver(cvc5)]
+    #[kani::stub(std::rt::thread_cleanup, noop)]
+    fn c03_split_len16() {
+        let key: [u8; 16] = kani::any();
+        let want = spec_murmur3_token(&key);
+        two_chunks(&key, 0, want);
+        two_chunks(&key, 1, want);
+        two_chunks(&key, 2, want);
+        two_chunks(&key, 3, want);
+        two_chunks(&key, 4, want);
+        two_chunks(&key, 5, want);
+        two_chunks(&key, 6, want);
+        two_chunks(&key, 7, want);
+        two_chunks(&key, 8, want);
+        two_chunks(&key, 9, want);
+        two_chunks(&key, 10, want);
+        two_chunks(&key, 11, want);
+        two_chunks(&key, 12, want);
+        two_chunks(&key, 13, want);
+        two_chunks(&key, 14, want);
+        two_chunks(&key, 15, want);
+        two_chunks(&key, 16, want);
+    }
+
+    #[kani::proof]
+    #[kani::unwind(36)]
+    #[kani::solver(cvc5)]
+    #[kani::stub(std::rt::thread_cleanup, noop)]
+    fn c03_split_len17() {
+        let key: [u8; 17] = kani::any();
+        let want = spec_murmur3_token(&key);
+        two_chunks(&key, 0, want);
+        two_chunks(&key, 1, want);
+        two_chunks(&key, 2, want);
+        two_chunks(&key, 3, want);
+        two_chunks(&key, 4, want);
+        two_chunks(&key, 5, want);
+        two_chunks(&key, 6, want);
+        two_chunks(&key, 7, want);
+        two_chunks(&key, 8, want);
+        two_chunks(&key, 9, want);
+        two_chunks(&key, 10, want);
+        two_chunks(&key, 11, want);
+        two_chunks(&key, 12, want);
+        two_chunks(&key, 13, want);
+        two_chunks(&key, 14, want);
+        two_chunks(&key, 15, want);
+        two_chunks(&key, 16, want);
+        two_chunks(&key, 17, want);
+    }
+
+    #[kani::proof]
+    #[kani::unwind(36)]
+    #[kani::solver(cvc5)]
+    #[kani::stub(std::rt::thread_cleanup, noop)]
+    fn c03_split_len31() {
+        let key: [u8; 31] = kani::any();
+        let want = spec_murmur3_token(&key);
+        two_chunks(&key, 0, want);
+        two_chunks(&key, 1, want);
+        two_chunks(&key, 2, want);
+        two_chunks(&key, 3, want);
+        two_chunks(&key, 4, want);
+        two_chunks(&key, 5, want);
+        two_chunks(&key, 6, want);
+        two_chunks(&key, 7, want);
+        two_chunks(&key, 8, want);
+        two_chunks(&key, 9, want);
+        two_chunks(&key, 10, want);
+        two_chunks(&key, 11, want);
+        two_chunks(&key, 12, want);
+        two_chunks(&key, 13, want);
+        two_chunks(&key, 14, want);
+        two_chunks(&key, 15, want);
+        two_chunks(&key, 16, want);
+        two_chunks(&key, 17, want);
+        two_chunks(&key, 18, want);
+        two_chunks(&key, 19, want);
+        two_chunks(&key, 20, want);
+        two_chunks(&key, 21, want);
+        two_chunks(&key, 22, want);
+        two_chunks(&key, 23, want);
+        two_chunks(&key, 24, want);
+        two_chunks(&key, 25, want);
+        two_chunks(&key, 26, want);
+        two_chunks(&key, 27, want);
+        two_chunks(&key, 28, want);
+        two_chunks(&key, 29, want);
+        two_chunks(&key, 30, want);
+        two_chunks(&key, 31, want);
+    }
+
+    #[kani::proof]
+    #[kani::unwind(36)]
+    #[kani::solver(cvc5)]
+    #[kani::stub(std::rt::thread_cleanup, noop)]
+    fn c03_split_len32() {
+        let key: [u8; 32] = kani::any();
+        let want = spec_murmur3_token(&key);
+        two_chunks(&key, 0, want);
+        two_chunks(&key, 1, want);
+        two_chunks(&key, 2, want);
+        two_chunks(&key, 3, want);
+        two_chunks(&key, 4, want);
+        two_chunks(&key, 5, want);
+        two_chunks(&key, 6, want);
+        two_chunks(&key, 7, want);
+        two_chunks(&key, 8, want);
+        two_chunks(&key, 9, want);
+        two_chunks(&key, 10, want);
+        two_chunks(&key, 11, want);
+        two_chunks(&key, 12, want);
+        two_chunks(&key, 13, want);
+        two_chunks(&key, 14, want);
+        two_chunks(&key, 15, want);
+        two_chunks(&key, 16, want);
+        two_chunks(&key, 17, want);
+        two_chunks(&key, 18, want);
+        two_chunks(&key, 19, want);
+        two_chunks(&key, 20, want);
+        two_chunks(&key, 21, want);
+        two_chunks(&key, 22, want);
+        two_chunks(&key, 23, want);
+        two_chunks(&key, 24, want);
+        two_chunks(&key, 25, want);
+        two_chunks(&key, 26, want);
+        two_chunks(&key, 27, want);
+        two_chunks(&key, 28, want);
+        two_chunks(&key, 29, want);
+        two_chunks(&key, 30, want);
+        two_chunks(&key, 31, want);
+        two_chunks(&key, 32, want);
+    }
+
+    #[kani::proof]
+    #[kani::unwind(36)]
+    #[kani::solver(cvc5)]
+    #[kani::stub(std::rt::thread_cleanup, noop)]
+    fn c03_split_len33() {
+        let key: [u8; 33] = kani::any();
+        let want = spec_murmur3_token(&key);
+        two_chunks(&key, 0, want);
+        two_chunks(&key, 1, want);
+        two_chunks(&key, 2, want);
+        two_chunks(&key, 3, want);
+        two_chunks(&key, 4, want);
+        two_chunks(&key, 5, want);
+        two_chunks(&key, 6, want);
+        two_chunks(&key, 7, want);
+        two_chunks(&key, 8, want);
+        two_chunks(&key, 9, want);
+        two_chunks(&key, 10, want);
+        two_chunks(&key, 11, want);
+        two_chunks(&key, 12, want);
+        two_chunks(&key, 13, want);
+        two_chunks(&key, 14, want);
+        two_chunks(&key, 15, want);
+        two_chunks(&key, 16, want);
+        two_chunks(&key, 17, want);
+        two_chunks(&key, 18, want);
+        two_chunks(&key, 19, want);
+        two_chunks(&key, 20, want);
+        two_chunks(&key, 21, want);
+        two_chunks(&key, 22, want);
+        two_chunks(&key, 23, want);
+        two_chunks(&key, 24, want);
+        two_chunks(&key, 25, want);
+        two_chunks(&key, 26, want);
+        two_chunks(&key, 27, want);
+        two_chunks(&key, 28, want);
+        two_chunks(&key, 29, want);
+        two_chunks(&key, 30, want);
+        two_chunks(&key, 31, want);
+        two_chunks(&key, 32, want);
+        two_chunks(&key, 33, want);
+    }
 
     /// C03.murmur3.spec(L): for every byte string of length L (all values, incl. bytes >= 0x80) the real
     /// streaming hasher returns Cassandra's token.
